@@ -169,6 +169,13 @@ def mkSlot (g0 : Gen) (desc : Option (List Char)) : Slot :=
   | some den => { src := .gen g, cur := { den := den, pos := 0 }, first := first, hasGrid := hasGrid }
   | none => { src := .gen g, cur := { den := (denOf g).1, pos := 0 }, tailBad := (denOf g).2, first := first, hasGrid := hasGrid }
 
+/-- a slot whose spec cursor runs over a denotation the specification has derived from the text -/
+def mkSlotDen (g0 : Gen) (den : Option IterSpec.Den) : Slot :=
+  let m := mkSlot g0 none
+  match den with
+  | some d => { m with cur := { den := d, pos := 0 }, tailBad := false, hasGrid := true }
+  | none => { m with hasGrid := true }
+
 def splitP (p : Char → Bool) : List Char → List (List Char)
   | [] => [[]]
   | c :: cs =>
@@ -345,6 +352,23 @@ def fromIterDen (kind : String) (vs : List Rat) : Option IterSpec.Den :=
   | "fac", [n, b, f, i] => (nat? n).bind fun k => (IterSpec.Desc.fac k b f i).den
   | _, _ => none
 
+/-- `advance` (or a skip) on a judged text slot: the new slot and the spec alternatives.  A read element ends
+    where the conversion ended; an element that has not been read extends to the end of the text (it is the
+    last one) or ends like a read one — the cursor follows the alternative taken. -/
+def strAdvance (sl : Slot) (it1 : StrIt) (rs : String) : Slot × String :=
+  let atEnd := sl.cur.value.isNone
+  let (c1, a) := sl.cur.advance
+  if sl.readSince ∨ atEnd then
+    let alts := match a with
+      | .more => "more ; *" | .last => "end ; *"
+      | .err => "end ; * || err ; *"      -- past the end: "no further element" once more, or an error
+    ({ sl with src := .str it1, cur := c1, readSince := false }, alts)
+  else
+    let alts := match a with
+      | .more => "more ; * || end ; *" | .last => "end ; *" | .err => "end ; * || err ; *"
+    let c2 := if rs = "end" ∧ a = .more then { sl.cur with pos := sl.cur.den.count } else c1
+    ({ sl with src := .str it1, cur := c2, readSince := false }, alts)
+
 def step (s : St) (w : List String) : St × String :=
   match w with
   | ["it", "begin"] => ({}, "R ok | C - | I -")
@@ -357,7 +381,8 @@ def step (s : St) (w : List String) : St × String :=
       else
         let txt := d.getD []
         let must := ((IterSpec.recognise txt).bind (·.den)).isSome
-        let never := IterSpec.certainlyMalformed txt
+        let never := IterSpec.certainlyMalformed txt || IterSpec.malformedCount txt ||
+          ((IterSpec.recognise txt).map (·.senseless)).getD false
         let alts := if d.isNone then "* ; *" else if must then "ok slot=* ; *" else if never then "refused ; *" else "* ; *"
         let g := if d.isNone then some defaultRange else create txt
         let r := addSlot s (g.map fun x => mkSlot x d) true alts
@@ -378,7 +403,11 @@ def step (s : St) (w : List String) : St × String :=
           let g := match d with
             | none => none
             | some txt => profile grid txt
-          addSlot s (g.map fun x => { mkSlot x none with hasGrid := true }) true "* ; *"
+          -- spec: canonical descriptions are accepted with their denotation, malformed ones refused
+          let den := (d.bind IterSpec.recogniseProfile).bind (·.den grid)
+          let never := (d.map IterSpec.profileMalformed).getD false || k == 0
+          let alts := if den.isSome then s!"ok slot={s.slots.size} ; *" else if never then "refused ; *" else "* ; *"
+          addSlot s (g.map fun x => mkSlotDen x den) true alts
   | ["it", "grow", k, n] =>
     -- the owner of the grid array appends points: the array of a live source is not affected (copy on write)
     match Dyadic.parseNat k, Dyadic.parseNat n with
@@ -423,7 +452,16 @@ def step (s : St) (w : List String) : St × String :=
             match d with
             | none => some (.poly grid [] 0 none)
             | some txt => mkPoly txt grid
-        addSlot s (g.map fun x => { mkSlot x none with hasGrid := true }) true "* ; *"
+        -- spec: the text is the part of a polynomial profile description behind its keyword
+        let pd := d.bind fun txt => IterSpec.recogniseProfile ("poly ".toList ++ txt)
+        let den : Option IterSpec.Den := match pd, cnt with
+          | some (.poly ms ss), some (k + 1) =>
+            (IterSpec.PDesc.poly ms ss).den ((List.range (k + 1)).map fun (i : Nat) => (((i : Int) - 2 : Int) : Rat) / 2)
+          | some (.poly ms ss), _ =>
+            some { count := 4294967295, nth := fun i => IterSpec.polyAt (IterSpec.polyCoeff ms ss) (i : Rat) }
+          | _, _ => none
+        let alts := if den.isSome then s!"ok slot={s.slots.size} ; *" else "* ; *"
+        addSlot s (g.map fun x => mkSlotDen x den) true alts
     | _, _ => (s, "bad-op")
   | ["it", "string", t, sp] =>
     let dec (h : String) : Option (Option (List Char)) := if h = "null" then some none else (decodeDesc h).map some
@@ -468,29 +506,77 @@ def step (s : St) (w : List String) : St × String :=
           let m := mkSlot g none
           match den with | some d => { m with cur := { den := d, pos := 0 }, tailBad := false } | none => m
         addSlot s1 newSlot false alts
+    else if kind = "fromval" then
+      if h ≠ "lin" ∧ h ≠ "range" ∧ h ≠ "fac" then (s, "bad-op")
+      else (s, "R refused | C - | I - | S refused ; *")
+    else if kind = "rangeset" then
+      -- `mpt_range_set` with a vector of two numbers (both taken), any other vector (refused), a vector
+      -- without data or a missing iterator (the default range 0..1), another type (refused)
+      if h = "vec2" then (s, s!"R ok min={fmtNum (-3/2) true} max={fmtNum 2 true} | C - | I ret=0 | S * ; *")
+      else if h = "vec3" then (s, "R err | C - | I ret=BadValue | S err ; *")
+      else if h = "vecnull" ∨ h = "itnull" then (s, s!"R ok min={fmtNum 0 true} max={fmtNum 1 true} | C - | I ret=0 | S * ; *")
+      else if h = "type" then (s, "R err | C - | I ret=BadType | S err ; *")
+      else (s, "bad-op")
     else if kind = "consume" then
       withSel s fun k sl =>
-        if h = "d" then
+        -- spec: a consumed element is the current one of the cursor, which moves on; past the end an error
+        let judgedGen : Bool := match sl.src with | .gen _ => sl.sync && !sl.tailBad | _ => false
+        let judgedStr : Bool := match sl.src with | .str _ => sl.judged && sl.sync | _ => false
+        if h = "Z" then
+          -- unknown element type (past the end the missing value is reported first)
+          let noval := match sl.src with
+            | .gen g => g.value.2.isNone
+            | .str it => !it.hasValue
+            | .buf b => (match b.value with | .null => true | _ => false)
+          (s, s!"R err | C - | I ret={if noval then "MissingData" else "BadType"} | S err ; *")
+        else if h = "d" then
           let (src1, r) := sl.src.consumeD
           let out := match r with
             | .ok v => s!"R ok val={fmtNum v true} | C - | I ret=type"
             | .err e => s!"R err | C - | I ret={e.name}"
-          (setSlot s k { sl with src := src1, sync := false }, out ++ " | S * ; *")
+          if judgedGen || judgedStr then
+            let alts := match sl.cur.value with
+              | some q => s!"ok val={fmtNum q true} ; *"
+              | none => "err ; *"
+            (setSlot s k { sl with src := src1, cur := sl.cur.advance.1, readSince := false }, out ++ s!" | S {alts}")
+          else
+            let isBuf := match sl.src with | .buf _ => true | _ => false
+            (setSlot s k { sl with src := src1, sync := isBuf }, out ++ (if isBuf then " | S err ; *" else " | S * ; *"))
         else if h = "u" then
           let (src1, r) := sl.src.consumeU
           let out := match r with
             | .ok v => s!"R ok val={v} | C - | I ret=type"
             | .err e => s!"R err | C - | I ret={e.name}"
-          (setSlot s k { sl with src := src1, sync := false }, out ++ " | S * ; *")
+          match sl.src with
+          | .str _ => (setSlot s k { sl with src := src1, sync := false }, out ++ " | S * ; *")
+          -- no unsigned conversion of a `double` or a string element: an error, nothing is consumed
+          | _ => (setSlot s k { sl with src := src1 }, out ++ " | S err ; *")
         else if h = "skip" then
           let (src1, r) := sl.src.skip
           let out := match r with
             | none => "R ok val=- | C - | I ret=type"
             | some e => s!"R err | C - | I ret={e.name}"
-          -- a buffer element is skipped as a whole
-          let n := sl.seg.segs.length
-          let seg1 := if r.isNone ∧ sl.seg.pos < n then { sl.seg with pos := sl.seg.pos + 1 } else sl.seg
-          (setSlot s k { sl with src := src1, sync := false, seg := seg1 }, out ++ " | S * ; *")
+          match sl.src with
+          | .gen _ =>
+            if judgedGen then
+              let alts := if sl.cur.value.isSome then "ok val=- ; *" else "err ; *"
+              (setSlot s k { sl with src := src1, cur := sl.cur.advance.1 }, out ++ s!" | S {alts}")
+            else (setSlot s k { sl with src := src1, sync := false }, out ++ " | S * ; *")
+          | .str _ =>
+            if judgedStr then
+              let it1 := match src1 with | .str x => x | _ => StrIt.create none none
+              let rs := match r with | none => "more" | some _ => "err"
+              -- the skip reports success for "more" and for "no further element" alike
+              let (sl1, _) := strAdvance sl it1 (if r.isNone ∧ !it1.hasValue then "end" else rs)
+              let alts := if sl.cur.value.isSome then "ok val=- ; *" else "ok val=- ; * || err ; *"
+              (setSlot s k sl1, out ++ s!" | S {alts}")
+            else (setSlot s k { sl with src := src1, sync := false }, out ++ " | S * ; *")
+          | .buf _ =>
+            -- a buffer element is skipped as a whole
+            let n := sl.seg.segs.length
+            let alts := if sl.seg.pos < n then "ok val=- ; *" else "err ; *"
+            let seg1 := if r.isNone ∧ sl.seg.pos < n then { sl.seg with pos := sl.seg.pos + 1 } else sl.seg
+            (setSlot s k { sl with src := src1, seg := seg1 }, out ++ s!" | S {alts}")
         else (s, "bad-op")
     else if kind = "kwalk" then
       match Dyadic.parseNat h with
@@ -593,6 +679,23 @@ def step (s : St) (w : List String) : St × String :=
             -- spec: the word lies inside the text (memory safety is what the sanitizer run observes)
             (setSlot s k { sl with src := .str it1, sync := false }, s!"R {rs} | C - | I - | S {rs} ; *")
         | _ => (s, "bad-op")
+    else if v = "meta" then
+      -- type query, format, iterator pointer; a source hands out no further reference
+      withSel s fun _ _ => (s, "R ok | C - | I - | S ok ; *")
+    else if v = "rest" then
+      withSel s fun k sl =>
+        match sl.src with
+        | .str it =>
+          if !it.hasValue then (s, "R null | C - | I - | S null ; * || noconv ; *")
+          else
+            let (it1, r) := it.rest
+            let rs := match r with
+              | .err _ => "noconv"
+              | .ok none => "rest=null"
+              | .ok (some t) => s!"rest={hexOf t}"
+            -- spec: the rest of the text lies inside the text; which part it is is left to the model
+            (setSlot s k { sl with src := .str it1, sync := false }, s!"R {rs} | C - | I - | S * ; *")
+        | _ => (s, "bad-op")
     else if v = "svalue" then
       withSel s fun _ sl =>
         match sl.src with
@@ -612,16 +715,9 @@ def step (s : St) (w : List String) : St × String :=
           let (it1, r) := it.advance
           let rs := match r with | .more => "more" | .last => "end" | .err _ => "err"
           let i := match r with | .more => "ret=115" | .last => "ret=0" | .err e => s!"ret={e.name}"
-          -- the elements of a text are delimited by reading them: an advance without a read is outside
-          -- the documented loop (no statement, the cursor is out of step from then on)
-          let atEnd := sl.cur.value.isNone
-          if sl.judged ∧ sl.sync ∧ (sl.readSince ∨ atEnd) then
-            let (c1, a) := sl.cur.advance
-            let alts := match a with
-              | .more => "more ; *" | .last => "end ; *"
-              | .err => "end ; * || err ; *"      -- past the end: "no further element" or an error
-            (setSlot s k { sl with src := .str it1, cur := c1, readSince := false },
-              s!"R {rs} | C - | I {i} | S {alts}")
+          if sl.judged ∧ sl.sync then
+            let (sl1, alts) := strAdvance sl it1 rs
+            (setSlot s k sl1, s!"R {rs} | C - | I {i} | S {alts}")
           else
             (setSlot s k { sl with src := .str it1, sync := false, readSince := false },
               s!"R {rs} | C - | I {i} | S * ; *")
@@ -665,7 +761,9 @@ def step (s : St) (w : List String) : St × String :=
         (setSlot s k { sl with src := .gen g1, cur := sl.cur.reset, sync := true }, s!"R {rs} | C - | I {i} | S ok ; *")
     else if v = "clone" then
       withSel s fun _ sl =>
-        let alts := s!"ok slot={s.slots.size} ; * || refused ; *"
+        -- only the polynomial source (it refers to the array of its owner) may refuse to be cloned
+        let noClone := match sl.src with | .gen (.poly ..) => true | .gen (.polyN ..) => true | _ => false
+        let alts := if noClone then s!"ok slot={s.slots.size} ; * || refused ; *" else s!"ok slot={s.slots.size} ; *"
         match sl.src with
         | .str it => addSlot s (some { sl with src := .str it.clone }) false alts
         | .buf b => addSlot s (some { sl with src := .buf b.clone }) false alts
